@@ -57,6 +57,10 @@ def main():
         hidc.error('Word size must be divisible by 8')
         return 1
 
+    if args.stack_size < 0:
+        hidc.error('Stack size must not be negative')
+        return 1
+
     try:
         source = SourceCode.from_file(args.input)
     except OSError as err:
